@@ -129,7 +129,8 @@ Fresh == "n" \o ToString(Len(hist) + 1)
 IdSpellings == { <<NamePL("ex", X)>>, <<NameQN("zz", A, X)>>, <<NameUri(A \o X)>>,
                  <<NameQN("ex", A, BX)>>, <<NameQN("q", AB, X)>>,
                  <<NameQN("", C, X)>>,        \* a default namespace the container adopts from the name
-                 <<NameBare(X)>> }            \* ... or has been given (SetDefault in the c18 menu)
+                 <<NameBare(X)>>,             \* ... or has been given (SetDefault in the c18 menu)
+                 <<NameQN("", C, <<"ex">>)>> } \* a local name that reads like a bound prefix
 RecMenu ==
   CASE Scenario \in {"c18", "c18b"} ->
          { [k |-> "entity", id |-> i, formals |-> <<>>, extras |-> <<>>] : i \in IdSpellings }
